@@ -85,7 +85,7 @@ def optimize_layer_of_individual(
     )
 
     result_parameter_values: list[float] = list(result.x)
-    n_circuit_evaluations: int = result.nfev
+    n_circuit_evaluations: int = int(result.nfev)
 
     return (
         EVQEIndividual.change_layer_parameter_values(individual, layer_id, tuple(result_parameter_values)),
